@@ -130,7 +130,7 @@ func runCase(e *env, c *Case) {
 	case "rv":
 		c.RvObs = runRv(e, c.Rv)
 	case "gen_xibc":
-		c.Obs = []StepObs{runGenX(e, c.GenX)}
+		c.Obs = runGenX(e, c.GenX)
 	case "gen_agg":
 		c.Obs = []StepObs{runGenA(e, c.GenA)}
 	case "gen_rv":
